@@ -643,6 +643,14 @@ func planC03(prop string, seed uint64, tier string, idx int) *Plan {
 	g.storeKnob("dir", "mem", "dir")
 	var imgs []int
 	ni := g.r.between(2, 4)
+	if idx%3 == 0 {
+		// few tags on few manifests in one repository: the same index entries are retagged, untagged, removed and re-added
+		// over and over (entry order and leftovers of earlier operations matter)
+		g.p.Profile = "tags (three tags, two manifests)"
+		g.repos(1)
+		g.tagPool = []string{"t", "t0", "tx"}
+		ni = 2
+	}
 	for i := 0; i < ni; i++ {
 		share := -1
 		if len(imgs) > 0 {
